@@ -302,6 +302,8 @@ def evalScript (sh : Sh) (t : Str) : Except ShErr Sh := evalCmds (t.length + 1) 
 /-- no NUL character (cannot occur in an environment value or argument of any process) -/
 def NoNul (s : Str) : Prop := ∀ c ∈ s, c ≠ nulChar
 
+instance (s : Str) : Decidable (NoNul s) := by unfold NoNul; infer_instance
+
 /-- the text after a command: end of script, or a newline and the next commands -/
 def Tail (tl : Str) : Prop := tl = [] ∨ ∃ r, tl = '\n' :: r
 
@@ -611,31 +613,47 @@ def HelperOpts.flush (o : HelperOpts) : HelperOpts :=
 inductive HelperErr | usage | unsupported
   deriving DecidableEq, Repr
 
-/-- the getopt loop of `ParseCommandLine` for separately given option arguments (the only form Bob emits) -/
+def optLetter : Str → Option Char
+  | ['-', c] => some c
+  | _ => none
+
+def isFlagOpt (c : Char) : Bool := c = 'i' || c = 'n' || c = 'r'
+
+/-- one option with its argument (`case` bodies of the getopt switch) -/
+def applyOpt (o : HelperOpts) (c : Char) (v : Str) : Except HelperErr HelperOpts :=
+  if c = 'S' then (if o.root.isSome then .error .usage else .ok { o with root := some v })
+  else if c = 'W' then (if o.workdir.isSome then .error .usage else .ok { o with workdir := some v })
+  else if c = 'H' then .ok { o with host := some v }
+  else if c = 'd' then (if !headIs (· = '/') v then .error .usage else .ok { o with dirs := o.dirs ++ [v] })
+  else if c = 'M' then (if !headIs (· = '/') v then .error .usage else .ok { o.flush with pending := some v })
+  else if c = 'm' || c = 'w' then
+    (if !headIs (· = '/') v then .error .usage
+     else match o.pending with
+      | none => .error .usage
+      | some s => .ok { o with mounts := o.mounts ++ [⟨s, v, c = 'w'⟩], pending := none })
+  else .error .unsupported
+
+/-- the getopt loop of `ParseCommandLine` for separately given option arguments (the only form Bob emits);
+`--` ends the options, the rest is the command -/
 def parseHelper : HelperOpts → List Str → Except HelperErr HelperOpts
   | o, [] => .ok o.flush
   | o, [a] =>
-    if a = dash 'i' || a = dash 'n' || a = dash 'r' then .ok { o with flags := o.flags ++ a.drop 1 }.flush
-    else if a = ['-', '-'] then .ok o.flush
-    else .error .usage
+    match optLetter a with
+    | none => .error .unsupported
+    | some c =>
+      if c = '-' then .ok o.flush
+      else if isFlagOpt c then .ok { o with flags := o.flags ++ [c] }.flush
+      else .error .usage
   | o, a :: v :: r =>
-    if a = ['-', '-'] then .ok { o.flush with cmd := v :: r }
-    else if a = dash 'i' || a = dash 'n' || a = dash 'r' then parseHelper { o with flags := o.flags ++ a.drop 1 } (v :: r)
-    else if a = dash 'S' then
-      (if o.root.isSome then .error .usage else parseHelper { o with root := some v } r)
-    else if a = dash 'W' then
-      (if o.workdir.isSome then .error .usage else parseHelper { o with workdir := some v } r)
-    else if a = dash 'H' then parseHelper { o with host := some v } r
-    else if a = dash 'd' then
-      (if !headIs (· = '/') v then .error .usage else parseHelper { o with dirs := o.dirs ++ [v] } r)
-    else if a = dash 'M' then
-      (if !headIs (· = '/') v then .error .usage else parseHelper { o.flush with pending := some v } r)
-    else if a = dash 'm' || a = dash 'w' then
-      (if !headIs (· = '/') v then .error .usage
-       else match o.pending with
-        | none => .error .usage
-        | some s => parseHelper { o with mounts := o.mounts ++ [⟨s, v, a = dash 'w'⟩], pending := none } r)
-    else .error .unsupported
+    match optLetter a with
+    | none => .error .unsupported
+    | some c =>
+      if c = '-' then .ok { o.flush with cmd := v :: r }
+      else if isFlagOpt c then parseHelper { o with flags := o.flags ++ [c] } (v :: r)
+      else
+        match applyOpt o c v with
+        | .error e => .error e
+        | .ok o1 => parseHelper o1 r
 
 /-- path components -/
 def comps (p : Str) : List Str := (splitOn '/' [] p).filter (!·.isEmpty)
